@@ -99,9 +99,11 @@ def run(chk):
     vlib.protocol_mc(chk)
     progs = []
     for b in bases(chk.seed):
-        progs.append({"id": "bind-%s-honest" % b["id"], "p": b["p"], "seed": b["seed"], "expect_p": "ok", "expect_v": "ok"})
+        # (that the undeviated statement is accepted is completeness, C01's business: here it is only counted - the property speaks of a
+        #  proof that is accepted for one statement)
+        progs.append({"id": "bind-%s-honest" % b["id"], "p": b["p"], "seed": b["seed"], "expect_p": "", "expect_v": "", "honest_base": True})
         for name, v, exp in deviations(b):
-            progs.append({"id": "bind-%s-%s" % (b["id"], name), "p": b["p"], "v": v, "seed": b["seed"], "expect_p": "ok", "expect_v": exp, "dev": name})
+            progs.append({"id": "bind-%s-%s" % (b["id"], name), "p": b["p"], "v": v, "seed": b["seed"], "expect_p": "", "expect_v": exp, "dev": name})
     chk.sample({"deviation": progs[7]["id"], "verifier_side": progs[7]["v"]})
     # (B2) every single deviation on the 256-bit curves: the proof made for the prover's statement must be rejected
     reps = 1 if q else 4
@@ -109,6 +111,8 @@ def run(chk):
         ps = [dict(p, seed=p["seed"] + 1000 * r, id=p["id"] + ("-r%d" % r if r else "")) for r in range(reps) for p in progs]
         rows = vlib.replay(chk, c, ps, "bind")
         vlib.report_replay(chk, rows, "binding")
+        chk.cov["honest_bases_accepted"] = chk.cov.get("honest_bases_accepted", 0) + sum(1 for r_ in rows if r_["program"].get("honest_base") and r_["vres"] == "ok")
+        chk.cov["honest_bases_run"] = chk.cov.get("honest_bases_run", 0) + sum(1 for r_ in rows if r_["program"].get("honest_base"))
     # (B3) toy31723: TLC rebuilds both statements from the recorded calls; an accepted unaltered proof requires equal transcripts, the
     # verifier's constraints satisfied by the prover's assignment and agreeing bases (StatementBinding), and the code's verdict must be the
     # specification's exact verdict for the deviated statement (including the zero-gate value-base carve-out)
